@@ -144,6 +144,19 @@ def free_clusters(ir):
     return sum(1 for c in range(2, min(maxc + 1, len(pf.fat))) if pf.fat[c] == 0), pf.bytes_per_cluster
 
 
+def ref_used_upper(ref, bpc, fat32):
+    """an upper bound on the clusters the reference tree needs on a FAT volume: every file max(1, ceil(size / bpc)) (an emptied file may keep
+    one cluster), every directory the slots of '.' / '..' and of its children (1 + ceil(len / 13) each) plus one cluster of slack"""
+    used = 0
+    for p in ref.walk.files():
+        used += max(1, -(-ref.getsize(p) // bpc))
+    dirs = list(ref.walk.dirs()) + (["/"] if fat32 else [])
+    for d in dirs:
+        slots = 2 + sum(2 + (len(n) + 12) // 13 for n in ref.listdir(d))
+        used += -(-slots * 32 // bpc) + 1
+    return used
+
+
 def run_one(ctx, label, img, meta, ops, mnt):
     rep = dict(volume=meta, volume_label=label, mount=mnt, ops=[o if o[0] not in ("writebytes", "appendbytes") else [o[0], o[1], f"<{len(o[2]) // 2} bytes>"] for o in ops])
     ir = ImplRun(img, encoding=mnt.get("encoding", "ibm437"), lazy_load=mnt.get("lazy_load", True))
@@ -240,6 +253,18 @@ def run_one(ctx, label, img, meta, ops, mnt):
                         pass
                 if free >= need + 2 and not (target_in_root and root_free < 22):
                     ctx.violation(f"{label}: {op[:2]} refused with ENOSPC while {free} clusters are free ({need} needed at most)", "spurious-enospc:" + op[0], dict(rep, at=i))
+                else:
+                    # the same by the REFERENCE's accounting (clusters leaked by earlier operations are not free in the FAT, but the tree the
+                    # reference holds — before this call, which it has already applied: the call's own need is part of `need` — does not use them)
+                    try:
+                        tot = pf._get_total_sectors() - pf.first_data_sector
+                        cap = tot // pf.bpb_header["BPB_SecPerClus"]
+                        ref_free = cap - ref_used_upper(ref, bpc, pf.fat_type == 32)
+                    except Exception:  # noqa
+                        ref_free = -1
+                    if ref_free >= need + 6 and not (target_in_root and root_free < 22):
+                        ctx.violation(f"{label}: {op[:2]} refused with ENOSPC although the tree needs at most {cap - ref_free} of {cap} clusters "
+                                      f"(the FAT shows only {free} free: clusters leaked)", "spurious-enospc:leak:" + op[0], dict(rep, at=i))
                 return  # the reference has no capacity limit: stop comparing this program here
             if op[0] in ("copy", "move") and ires[0] == "err" and rres[0] == "err" and ires[1] != rres[1]:
                 # two faults at once (source not a file / destination exists / destination directory missing): the order in which they are
@@ -314,9 +339,17 @@ def names_ok_pool(rng, enc):
     return out
 
 
-def scripted(i, bpc):
+def scripted(i, bpc, count=0):
     """minimised past disagreements and targeted histories, run before the random programs"""
-    k = i % 3
+    k = i % 4
+    if k == 3:     # churn: a file is written, emptied (it may keep one cluster) and removed, more often than the volume has clusters; then
+        # most of the volume is asked for in one piece: nothing may have leaked (C01-m4)
+        if not 20 <= count <= 400:
+            return [["listdir", "/"]]
+        ops = []
+        for r in range(count + 8):
+            ops += [["writebytes", "/churn.bin", "c5" * (bpc + 1)], ["writebytes", "/churn.bin", ""], ["remove", "/churn.bin"]]
+        return ops + [["writebytes", "/after churn.bin", "a7" * ((count * 3 // 5) * bpc)], ["getsize", "/after churn.bin"], ["listdir", "/"]]
     if k == 0:     # case variants that both carry a long name are distinct entries; removing one must not touch the other
         return [["makedir", "/cs"], ["writebytes", "/cs/nOtes.txt", "aa" * 40], ["writebytes", "/cs/Notes.txt", "bb" * 50], ["makedir", "/cs/sUb"], ["makedir", "/cs/Sub"],
                 ["remove", "/cs/Notes.txt"], ["readbytes", "/cs/nOtes.txt"], ["listdir", "/cs"], ["removedir", "/cs/Sub"], ["isdir", "/cs/sUb"], ["listdir", "/cs"],
@@ -333,7 +366,7 @@ def scripted(i, bpc):
 def run(ctx):
     vols = gen.volumes(ctx.tier)
     built = {}
-    for i in range(len(vols) * 3 if ctx.tier == "quick" else len(vols) * 3):
+    for i in range(len(vols) * 4):
         label, thunk = vols[i % len(vols)]
         if label in ("build32-high",) and ctx.tier == "quick":
             continue
@@ -345,7 +378,7 @@ def run(ctx):
             continue
         ctx.evaluations += 1
         ctx.dist["scripted"] += 1
-        run_one(ctx, label, img, meta, scripted(i // len(vols), v.bpc), dict(encoding="ibm437", lazy_load=bool(i % 2)))
+        run_one(ctx, label, img, meta, scripted(i // len(vols), v.bpc, v.count), dict(encoding="ibm437", lazy_load=bool(i % 2)))
     for i in range(ctx.scale(40, 800)):
         if ctx.time_left() < 20:
             break
